@@ -31,6 +31,8 @@ import (
 	"encoding/hex"
 	"fmt"
 	"net"
+	"os"
+	"runtime"
 	"reflect"
 	"sort"
 	"strings"
@@ -216,6 +218,9 @@ func c07H1Exec(s *c07frames.H1Script, c c07H1Case) (res c07H1Result) {
 				return false
 			}
 			if time.Now().After(dispatchDeadline) {
+				stk := make([]byte, 1<<16)
+				stk = stk[:runtime.Stack(stk, true)]
+				os.WriteFile("/tmp/C07-h1-stacks.txt", stk, 0644)
 				res.harness = fmt.Sprintf("Dispatch did not return within %v after %d bytes", c07H1Timeout, fed)
 				return false
 			}
